@@ -455,6 +455,13 @@ def check(repo: Repo, run: Run) -> None:
                 run.ob("C01.M7", f"DoubleType.{dunder}|zero divisor", not bad,
                        f"DoubleType.{dunder}: " + ("x / +-0.0 is +-inf with sign sgn(x)*sgn(0), 0/0 and NaN/0 are NaN, for all 14 class x sign cases" if not bad else "; ".join(bad[:2])), ct.loc(c.node))
 
+    # M9: every operator re-wraps its result with the class constructor, so the constructor must be the identity on
+    # values of its own kind: one that takes a falsy source for an absent one turns the result -0.0 into +0.0
+    # (1.0 / (0.0 * -1.0) becomes +inf) -- rule shared with C10.R7
+    from .c10 import check_absent_vs_falsy
+
+    run.floor("C01.M9", check_absent_vs_falsy(repo, run, "C01.M9", ("IntType", "UintType", "DoubleType")), 3)
+
     # M8 ---------------------------------------------------------------
     # unary minus on a double flips the sign bit: -(+0.0) is -0.0 (observable as 1.0 / -x), -(-0.0) is +0.0,
     # -NaN is NaN, -(+-inf) is -+inf.  (`0.0 - x` is not negation: 0.0 - 0.0 = +0.0.)
